@@ -204,7 +204,7 @@ package decoder
 //@ func CompileToGetDecoder(typ) (dec, err)
 //@   props C14 C06
 //@   alsotags race
-//@   requires typeAddr != nil ==> slotsOwned()
+//@   requires[global] typeAddr != nil ==> slotsOwned()
 // ENV-types: a type address inside the window lies on the grid AnalyzeTypeAddr inferred
 //@   postassume initDecoder: onFastPath(typ) ==> gridded(typ)
 //@   ensures err == nil ==> dec != nil && owner(dataOf(dec)) == typ
@@ -214,3 +214,30 @@ package decoder
 // the sync.Once argument of the trusted initDecoder contract rests on these being the only writers
 //@ writers[C14] typeAddr: initDecoder$1
 //@ writers[C14] cachedDecoder: initDecoder$1, CompileToGetDecoder
+
+// ---------------------------------------------------------------- interface contracts
+//@ func Decoder.Decode(d, ctx, cursor, depth, p) (c, err)
+//@   props C06 C11 C12
+//@   trusted interface contract: implementations under contract are verified against their own, stronger contracts; the others (reflection-driven decoders) are assumed to satisfy it
+//@   requires ctx != nil && bufOK(ctx.Buf, cursor)
+// assumed of every implementation: on success the cursor stays inside the buffer and the terminator is still there
+//@   ensures err == nil ==> cursor <= c && c < len(old(ctx.Buf)) && M(ptrOf(old(ctx.Buf)) + len(old(ctx.Buf)) - 1) == 0
+//@   assigns all
+
+//@ func Decoder.DecodePath(d, ctx, cursor, depth) (paths, c, err)
+//@   props C06 C11 C12 C20
+//@   trusted interface contract (see Decoder.Decode)
+//@   requires ctx != nil && bufOK(ctx.Buf, cursor)
+//@   ensures err == nil ==> cursor <= c && c < len(old(ctx.Buf)) && M(ptrOf(old(ctx.Buf)) + len(old(ctx.Buf)) - 1) == 0
+//@   assigns all
+
+//@ func TakeRuntimeContext() (ctx)
+//@   props C11 C12 C06
+//@   trusted sync.Pool.Get returns a non-nil *RuntimeContext (built by New, whose Option is non-nil, or stored by Put) whose field contents are otherwise arbitrary
+//@   ensures ctx != nil && ctx.Option != nil
+//@   assigns nothing
+
+//@ func ReleaseRuntimeContext(ctx)
+//@   props C11 C12 C06
+//@   trusted sync.Pool.Put has no effect on modelled state
+//@   assigns nothing
